@@ -198,6 +198,11 @@ class Ctx:
         else:
             val = self.reals('rnd%d_%s' % (k, kind), *shape)
             flat = list(val.ravel())
+        if kind in ('rand', 'uniform01'):
+            if not hasattr(self, '_rand_names'):
+                self._rand_names = set()
+            for v in flat:
+                self._rand_names.add(v.t.decl().name())
         for v in flat:
             if kind in ('rand', 'uniform01'):
                 lo = (v.t > 0) if getattr(self, 'rand_open_interval', False) else (v.t >= 0)
@@ -537,7 +542,29 @@ class Ctx:
                 s.add(*lemmas)
                 if time.time() - t0 > timeout_ms / 1000.0:
                     break
-            if r == 'sat' and self._input_order:
+            if r == 'sat' and self.pc:
+                # prefer a counterexample that satisfies every branch condition with a margin, so that the float
+                # replay takes the same path (SMT models like to sit exactly on a branch boundary)
+                for delta in (Fraction(1, 100), Fraction(1, 10 ** 4)):
+                    s3 = z3.Solver()
+                    s3.set('timeout', 3000)
+                    s3.add(*[_with_margin(p_, delta) for p_ in self.pc])
+                    s3.add(*cone)
+                    s3.add(neg)
+                    for ax in _static_axioms(apps):
+                        s3.add(ax)
+                    for name in self._input_order:
+                        v = self.inputs[name]
+                        s3.add(v >= -64, v <= 64)
+                    self.stats.solver_calls += 1
+                    if str(s3.check()) == 'sat':
+                        m3 = s3.model()
+                        if not _refine_lemmas(apps, m3):
+                            m = m3
+                            ob['nice'] = True
+                            ob['robust_margin'] = float(delta)
+                            break
+            if r == 'sat' and self._input_order and not ob.get('nice'):
                 # prefer a counterexample with moderate values (rounding in the float replay)
                 for box, lo in ((8, Fraction(1, 16)), (64, Fraction(1, 1024))):
                     s.push()
@@ -922,6 +949,17 @@ class SymReal:
             if v > 0:
                 return SymReal(c.log(t))
             return float('-inf') if v == 0 else float('nan')
+        if z3.is_app(t) and t.num_args() == 0 and t.decl().name() in getattr(c, '_rand_names', ()):
+            # log of a uniform draw u in (0,1): an exact change of variable  l = log u  (l < 0), no uninterpreted LOG
+            if not c.implied(t > 0):
+                if not SymBool(t > 0).__bool__():
+                    return float('-inf')
+            nm = 'log!' + t.decl().name()
+            fresh = nm not in c.inputs
+            l = c.real(nm)
+            if fresh:
+                c._add(l.t < 0, assume=True)
+            return l
         if not c.implied(t > 0):
             if not SymBool(t > 0).__bool__():
                 if SymBool(t == 0).__bool__():
@@ -1503,11 +1541,27 @@ class ConcreteCtx:
         k = len(self.draws)
         shape = tuple(int(s) for s in np.atleast_1d(shape)) if shape != () else ()
         if shape == ():
-            val = self.real('rnd%d_%s' % (k, kind))
+            val = self._rand_val('rnd%d_%s' % (k, kind)) if kind == 'rand' else self.real('rnd%d_%s' % (k, kind))
         else:
             val = self.reals('rnd%d_%s' % (k, kind), *shape)
+            if kind == 'rand':
+                for idx in itertools.product(*[range(s_) for s_ in shape]):
+                    val[idx] = self._rand_val('rnd%d_%s' % (k, kind) + ''.join('_%d' % i for i in idx))
         self.draws.append({'kind': kind, 'base': kind, 'shape': shape, 'params': params, 'value': val})
         return val
+
+    def _rand_val(self, name):
+        """uniform draw: if the model carries l = log u (change of variable), u = exp(l) exactly as floats compute it."""
+        lname = 'log!' + name
+        has = lname in self.values
+        if not has and self.m is not None:
+            try:
+                has = any(d.name() == lname for d in self.m.decls())
+            except Exception:
+                has = False
+        if has:
+            return math.exp(self._val(lname))
+        return self._val(name)
 
     def assume(self, cond, text=None):
         if text:
@@ -1907,6 +1961,30 @@ _TRANS = {
     'LOG': (math.log, +1), 'EXP': (math.exp, +1), 'LGAMMA': (math.lgamma, 0), 'ERF': (math.erf, +1),
     'ATAN': (math.atan, +1), 'SIN': (math.sin, 0), 'COS': (math.cos, 0),
 }
+
+
+def _with_margin(p, delta):
+    """Strengthen a comparison literal by a margin (other literals unchanged)."""
+    d = _rv(Fraction(delta))
+    neg = False
+    t = p
+    if z3.is_not(t):
+        neg = True
+        t = t.arg(0)
+    if z3.is_app(t) and t.num_args() == 2 and z3.is_arith(t.arg(0)):
+        k = t.decl().kind()
+        a, b = t.arg(0), t.arg(1)
+        if not neg:
+            if k in (z3.Z3_OP_LE, z3.Z3_OP_LT):
+                return a <= b - d
+            if k in (z3.Z3_OP_GE, z3.Z3_OP_GT):
+                return a >= b + d
+        else:
+            if k in (z3.Z3_OP_LE, z3.Z3_OP_LT):      # not (a <= b)  ->  a >= b + d
+                return a >= b + d
+            if k in (z3.Z3_OP_GE, z3.Z3_OP_GT):
+                return a <= b - d
+    return p
 
 
 def _uf_apps(terms):
